@@ -48,4 +48,12 @@ PROPS = {
         trusted=["translator gsgen for GenMaxDepthSel.v", "hand model of the go-ipld-prime selector fragment used by the validator (compared differentially on well-formed and mutated nodes)"],
         assumptions=["selector nodes contain no links outside stop-at conditions"],
     ),
+    'C07': dict(
+        drivers=[dict(driver='budget', monitors=['MON07']), dict(driver='e2ebudget', monitors=['MON07E'])],
+        proof_files=['LtreeProofs.v'],
+        level_text="Theorems C07_cap / C07_enough / C07_exceeded: for every traversal plan (all DAG shapes, selectors, codecs), every oracle answering loads (present, missing, hard error) and every budget n, at most n loads reach the store; with needs <= n the budgeted traversal is identical to the free one; with needs > n it is the free one cut after exactly n loads followed by a budget refusal and abort. C07_effective_budget: the budget that applies is the smaller non-zero of global and per-request. Tied to the code two ways each run: the real ipldutil.Traverser with and without a budget on generated DAGs (budgeted trace must equal the predicted cut of the free trace), and two real GraphSync instances over the mocknet with every global/per-request budget combination on either side.",
+        level_note="Kernel-checked over traversal plans; that go-ipld-prime's engine behaves as a plan (depth-first, skip prunes the subtree, budget checked before each load) is validated by the trace comparison, not proved. effective_budget is a hand transcription of the two server.go sites, checked by the whole-stack grid.",
+        trusted=["go-ipld-prime traversal engine (checkLinkBudget, SkipMe) outside the model; compared by traces", "whole-stack grid uses the libp2p mocknet"],
+        assumptions=["the store answers each link load once per traversal step (Advance / Error)"],
+    ),
 }
